@@ -107,6 +107,7 @@ type FuncSpec struct {
 	Pure         bool
 	Modifies     []string // heap component patterns; nil = unspecified (derive), ["nothing"]
 	HasMod       bool
+	Preserves    []string // `preserves P`: components matching P are unchanged on pre-existing objects (a partial frame, checked)
 	Replay       *ReplaySpec
 	Replays      map[string]*ReplaySpec // per clause label
 	Track        []string
@@ -616,6 +617,15 @@ func (ss *SpecSet) parseFile(file, pkg, src string) error {
 				m = strings.TrimSpace(m)
 				if m != "" && m != "nothing" {
 					curF.Modifies = append(curF.Modifies, m)
+				}
+			}
+		case "preserves":
+			if curF == nil {
+				return fail(sl.line, "preserves outside func")
+			}
+			for _, m := range strings.Split(rest, ",") {
+				if m = strings.TrimSpace(m); m != "" {
+					curF.Preserves = append(curF.Preserves, m)
 				}
 			}
 		case "track":
